@@ -282,10 +282,10 @@ fn dump_store(
     }
     let rs = std::collections::hash_map::RandomState::new();
     // index the stored copies once: (type, owner) -> [(record, key, bytes)]
-    let mut by_name: HashMap<(u16, Labels), Vec<(&ResourceRecord<'static>, RecKey, Vec<u8>)>> = HashMap::new();
+    let mut by_name: HashMap<(u16, Labels), Vec<(&ResourceRecord<'static>, RecKey, Vec<u8>, u32)>> = HashMap::new();
     for s in &owned {
-        if let Some((sk, _, _, sbytes)) = record_key(s) {
-            by_name.entry((sk.rtype, sk.owner.clone())).or_default().push((s, sk, sbytes));
+        if let Some((sk, sttl, _, sbytes)) = record_key(s) {
+            by_name.entry((sk.rtype, sk.owner.clone())).or_default().push((s, sk, sbytes, sttl));
         }
     }
     let mut budget = 4000usize; // bound the in-run oracle work per dump
@@ -297,11 +297,15 @@ fn dump_store(
                 break;
             }
             budget -= 1;
-            let Some((bk, _, _, bbytes)) = record_key(b) else { continue };
+            let Some((bk, bttl, _, bbytes)) = record_key(b) else { continue };
             let Some(cands) = by_name.get(&(bk.rtype, bk.owner.clone())) else { continue };
-            for (s, sk, sbytes) in cands {
+            for (s, sk, sbytes, sttl) in cands {
                 let eq = *b == **s;
-                if *sk == bk && !eq {
+                // a stray OPT pseudo-record keeps its EDNS version in the TTL field, which is
+                // part of the value (`OPT::version`) but not of the key: same key and another
+                // TTL are two different records there
+                let same_value = *sk == bk && (bk.rtype != refdns::t::OPT || *sttl == bttl);
+                if same_value && !eq {
                     c16.push(format!("owned-ne: stored owned copy of a type {} record is not == its borrowed original", bk.rtype));
                 }
                 if eq {
